@@ -638,6 +638,17 @@ class GraphBuilder(object):
     return result
 
 
+class _HandlersOf(object):
+  """Lexical scope marker for the except handlers of a try statement.
+
+  Code in a handler is still guarded by the finally clause of its try statement,
+  but no longer by the handlers of that statement.
+  """
+
+  def __init__(self, try_node):
+    self.try_node = try_node
+
+
 class AstToCfg(ast.NodeVisitor):
   """Converts an AST to CFGs.
 
@@ -663,6 +674,8 @@ class AstToCfg(ast.NodeVisitor):
   def _get_enclosing_finally_scopes(self, stop_at):
     included = []
     for node in reversed(self.lexical_scopes):
+      if isinstance(node, _HandlersOf):
+        node = node.try_node
       if isinstance(node, ast.Try) and node.finalbody:
         included.append(node)
       if isinstance(node, stop_at):
@@ -944,9 +957,13 @@ class AstToCfg(ast.NodeVisitor):
       # inconsistent, but less so.
       block_representative = node.handlers[0]
       self.builder.enter_cond_section(block_representative)
+      # Jumps out of a handler still run the finally clause of this statement.
+      handlers_scope = _HandlersOf(node)
+      self._enter_lexical_scope(handlers_scope)
       for block in node.handlers:
         self.builder.new_cond_branch(block_representative)
         self.visit(block)
+      self._exit_lexical_scope(handlers_scope)
       self.builder.new_cond_branch(block_representative)
       self.builder.exit_cond_section(block_representative)
 
